@@ -422,4 +422,109 @@ theorem queries_total2 {s : St} (h : Inv s) {v w : Nat} (hv : v < s.n) {a b : Li
     · obtain ⟨s1, h1, h2⟩ := fromCase (by omega)
       simp [c1, h1, h2]
 
+/-! ### the last queries: compareIgnoreCase(n), hash, faults of toBool / equalsIgnoreCase -/
+
+theorem compareICN_eq {s s' : St} (h : Inv s) {v w : Nat} (hv : v < s.n) (hw : w < s.n) {r : Int} {n : Nat}
+    (e : compareICN s v w n = some (s', r)) {a b : List Nat} (ha : allSome (absVar s v) = some a)
+    (hb : allSome (absVar s w) = some b) (hza : ∀ x ∈ a, x ≠ 0) (hzb : ∀ x ∈ b, x ≠ 0) :
+    r = strcmpL ((a.map toLower).take n) ((b.map toLower).take n) ∧ ∀ u, absVar s' u = absVar s u := by
+  simp only [compareICN, Option.bind_eq_bind, Option.bind_eq_some_iff, Option.pure_def, Option.some.injEq,
+    Prod.mk.injEq] at e
+  obtain ⟨s1, h1, s2, h2, ca, h3, cb, h4, rfl, rfl⟩ := e
+  obtain ⟨ea, eb, ab⟩ := views2 h hv hw h1 h2 ha hb hza hzb
+  rw [ea] at h3; rw [eb] at h4
+  injection h3 with h3; injection h4 with h4
+  subst h3; subst h4
+  refine ⟨strncmp_take n _ _ ?_, ab⟩
+  intro x hx; obtain ⟨y, hy, rfl⟩ := List.mem_map.mp hx; exact toLower_ne_zero (hza y hy)
+
+/-- the chars `hash` reads: the value followed by its terminator -/
+theorem rd_with_term {s : St} (h : Inv s) {v : Nat} (ht : termByte s v = some (some 0)) {d : Desc}
+    (hd : desc s v = some d) : rdRange s d.base d.off (d.len + 1) = some (absVar s v ++ [some 0]) := by
+  have hall := rd_all h hd
+  have hlen := desc_len h hd
+  simp only [termByte, hd, Option.bind_eq_bind, Option.bind_some] at ht
+  simp only [rdRange, Option.bind_eq_bind] at hall ⊢
+  cases hm : memOf s d.base with
+  | none => simp [hm] at ht
+  | some mm =>
+    simp only [hm, Option.bind_some, rdList] at ht hall ⊢
+    split at hall
+    · injection hall with hall
+      have hlt : d.off + d.len < mm.length := by
+        by_cases c : d.off + d.len < mm.length
+        · exact c
+        · rw [List.getElem?_eq_none (by omega)] at ht; cases ht
+      have : d.off + (d.len + 1) ≤ mm.length := by omega
+      simp only [this, if_true]
+      rw [drop_split ht, hall, List.take_append, List.take_of_length_le (by omega)]
+      have : d.len + 1 - (absVar s v).length = 1 := by omega
+      rw [this]; rfl
+    · cases hall
+
+theorem hash_eq {s s' : St} (h : Inv s) {v : Nat} (hv : v < s.n) {r : Nat} (e : hash s v = some (s', r))
+    {a : List Nat} (ha : allSome (absVar s v) = some a) :
+    r = hashL a.length (a ++ [0]) ∧ ∀ u, absVar s' u = absVar s u := by
+  simp only [hash, Option.bind_eq_bind, Option.bind_eq_some_iff, Option.pure_def, Option.some.injEq,
+    Prod.mk.injEq] at e
+  obtain ⟨s1, h1, d, hd, c, h2, cc, h3, rfl, rfl⟩ := e
+  obtain ⟨E, t⟩ := eff_cview h hv h1
+  rw [rd_with_term E.inv t hd, E.self, allSome_eq ha] at h2
+  injection h2 with h2; subst h2
+  have : List.map some a ++ [some 0] = List.map some (a ++ [0]) := by simp
+  rw [this, allSome_map] at h3
+  injection h3 with h3; subst h3
+  have hl : d.len = a.length := by rw [desc_len E.inv hd, E.self, allSome_eq ha, List.length_map]
+  rw [hl]
+  exact ⟨rfl, E.silent.abs⟩
+
+/-- the hash code depends only on the length and on the first, the middle and the last char -/
+theorem hashL_depends (a b : List Nat) (hl : a.length = b.length)
+    (h0 : a.getD 0 0 = b.getD 0 0) (hm : a.getD (a.length / 2) 0 = b.getD (a.length / 2) 0)
+    (he : a.getD (a.length - 1) 0 = b.getD (a.length - 1) 0) :
+    hashL a.length (a ++ [0]) = hashL b.length (b ++ [0]) := by
+  have g : ∀ (l : List Nat) (i : Nat), i < l.length → (l ++ [0]).getD i 0 = l.getD i 0 := by
+    intro l i hi
+    simp only [List.getD_eq_getElem?_getD, List.getElem?_append_left hi]
+  have g0 : ∀ (l : List Nat) (i : Nat), l.length = 0 → (l ++ [0]).getD i 0 = 0 := by
+    intro l i hl0
+    have : l = [] := List.eq_nil_of_length_eq_zero hl0
+    subst this
+    cases i <;> simp
+  unfold hashL
+  rw [← hl]
+  by_cases c : a.length = 0
+  · have cb : b.length = 0 := by omega
+    simp only [c, ne_eq, not_true_eq_false, if_false, Nat.sub_zero, Nat.zero_div, g0 a _ c, g0 b _ cb]
+  · have cb : b.length ≠ 0 := by omega
+    have p0 : 0 < a.length := by omega
+    have pm : a.length / 2 < a.length := Nat.div_lt_self p0 (by omega)
+    have pe : a.length - 1 < a.length := by omega
+    simp only [ne_eq, c, not_false_eq_true, if_true]
+    rw [g a 0 p0, g b 0 (by omega), g a _ pm, g b _ (by omega), g a _ pe, g b _ (by omega), h0, hm, he]
+
+theorem queries_total3 {s : St} (h : Inv s) {v w : Nat} (hv : v < s.n) (hw : w < s.n) {a b : List Nat}
+    (ha : allSome (absVar s v) = some a) (hb : allSome (absVar s w) = some b)
+    (hza : ∀ x ∈ a, x ≠ 0) (hzb : ∀ x ∈ b, x ≠ 0) :
+    (toBool s v).isSome ∧ (equalsIC s v w).isSome ∧ (hash s v).isSome := by
+  obtain ⟨s1, s2, h1, h2, ea, eb⟩ := views2_some h hv hw ha hb hza hzb
+  obtain ⟨t1, g1, ca, cc⟩ := view1_some h hv ha hza
+  obtain ⟨dv, hdv⟩ := desc_some h v
+  obtain ⟨dw, hdw⟩ := desc_some h w
+  obtain ⟨E, t⟩ := eff_cview h hv g1
+  refine ⟨?_, ?_, ?_⟩
+  · simp only [toBool, hdv, Option.bind_eq_bind, Option.bind_some]
+    by_cases l0 : dv.len = 0
+    · simp [l0]
+    · simp only [l0, if_false, g1, Option.bind_some, contentVal_eq E.inv, E.self, ha, ca, Option.pure_def,
+        Option.isSome_some]
+  · simp only [equalsIC, hdv, hdw, Option.bind_eq_bind, Option.bind_some]
+    split
+    · rfl
+    · simp [compareIC, h1, h2, ea, eb]
+  · obtain ⟨d1, hd1⟩ := desc_some E.inv v
+    have : List.map some a ++ [some 0] = List.map some (a ++ [0]) := by simp
+    simp only [hash, g1, hd1, Option.bind_eq_bind, Option.bind_some, rd_with_term E.inv t hd1, E.self,
+      allSome_eq ha, this, allSome_map, Option.pure_def, Option.isSome_some]
+
 end Nstd.Str
